@@ -22,10 +22,10 @@ TAGS = {
 
 DESIGN = {
     # property: (quick configs, thorough configs, mutant self-tests [cfg, expected tag])
-    "C01": (["Loop_quick.cfg"], ["Loop_small.cfg", "Loop_faults.cfg", "Loop_live2.cfg"], [("Loop_mut_forward_noidle.cfg", "C01")]),
+    "C01": (["Loop_quick.cfg"], ["Loop_small.cfg", "Loop_faults.cfg", "Loop_live2.cfg", "Loop_three.cfg"], [("Loop_mut_forward_noidle.cfg", "C01")]),
     "C04": (["Loop_quick.cfg", "Loop_ideal.cfg"], ["Loop_small.cfg", "Loop_ideal.cfg", "Loop_faults.cfg"],
             [("Loop_mut_firstonly.cfg", "C04"), ("Loop_mut_strict.cfg", "C04")]),
-    "C05": (["Loop_quick.cfg", "Loop_live.cfg"], ["Loop_small.cfg", "Loop_faults.cfg", "Loop_live.cfg", "Loop_live2.cfg"], [("Loop_mut_skip_noidle.cfg", "C05"), ("Loop_mut_no_reidle.cfg", "C01")]),
+    "C05": (["Loop_quick.cfg", "Loop_live.cfg"], ["Loop_small.cfg", "Loop_faults.cfg", "Loop_live.cfg", "Loop_live2.cfg", "Loop_three.cfg"], [("Loop_mut_skip_noidle.cfg", "C05"), ("Loop_mut_no_reidle.cfg", "C01")]),
     "C08": (["Loop_faults_quick.cfg", "Loop_quick.cfg", "Loop_live_faults.cfg"], ["Loop_faults.cfg", "Loop_small.cfg", "Loop_live_faults.cfg"], [("Loop_mut_exit_without_answer.cfg", "C08")]),
     "C17": (["AlbumArt.cfg"], ["AlbumArt.cfg", "AlbumArt_big.cfg"], [("AlbumArt_mut_limit_offset.cfg", "C17"), ("AlbumArt_mut_empty_is_none.cfg", "C17"), ("AlbumArt_mut_no_fallback.cfg", "C17")]),
     "C18": (["Handshake.cfg"], ["Handshake.cfg"], [("Handshake_mut_eof_is_ok.cfg", "C18"), ("Handshake_mut_skip_verdict.cfg", "C18"), ("Handshake_mut_accept_invalid.cfg", "C18")]),
@@ -34,7 +34,8 @@ DESIGN_MODULE = {"AlbumArt.cfg": "AlbumArt", "AlbumArt_big.cfg": "AlbumArt", "Ha
 
 MODEL_SCOPE = {
     "loop": "Loop.tla exhaustive: 2 callers x 1 request (single / failing / 2-command list with scripted failure), <= 2 server changes of <= 2 subsystems, "
-            "every half-line segmentation, both select! outcomes, timer, cancel, handle drop; faults config: one fault of each kind at every state",
+            "every half-line segmentation, both select! outcomes, timer, cancel, handle drop; faults config: one fault of each kind at every state; "
+            "thorough C01 / C05 also 3 callers x 1 request x 1 change with cancel and drop (Loop_three.cfg, ~9 M distinct states); liveness configs without state constraint",
     "C17": "AlbumArt.tla exhaustive: Client::album_art as coded x the server's picture rules for every embedded / file picture size -1..6 (thorough: ..12), chunk limit 1..4 (..7), "
            "MIME present / absent, scripted ACK 0 / 5 / 50 on either command; invariants: request sequence, result, offsets strictly increasing; liveness: termination",
     "C18": "Handshake.tla exhaustive: do_connect as coded x greeting kinds {valid, invalid, cut viable, cut bad} x every half-line segmentation x password {none, accepted, wrong} x "
